@@ -407,6 +407,45 @@ def extras(run, seed, idx, flip, bits, n, mods):
         c.chk("Ctransform after pars change + reset()", nm, g2[:, j], ref2["g"][:, j], 1e-12 / p2["wavelength"])
     run.count("reset_histories")
 
+    # ---- d2. one columnfile living through parameter changes: every update must use the parameters and the pixel
+    # positions the object holds NOW, whatever was computed before (calibration loops change them in place)
+    for fast in (True, False):
+        cf = columnfile.colfile_from_dict({"sc": sc.copy(), "fc": fc.copy(), "omega": om.copy()})
+        cf.parameters = parameters.parameters(**p)
+        cf.updateGeometry(fast=fast)
+        cur, csc, cfc = dict(p), sc, fc
+        for step in range(3):
+            how = ["set", "setparameters", "assign", "update-dict", "move-pixels"][int(r.integers(0, 5))]
+            q = gen_pars(rng(seed, "C01", "hist", idx, step, int(fast)), int(r.integers(8)), int(r.integers(1 << len(SW))))
+            if how == "set":
+                for k in ("distance", "y_center", "tilt_x", "o11", "o12", "o21", "o22", "wedge", "t_x"):
+                    cf.parameters.set(k, q[k])
+                    cur[k] = q[k]
+            elif how == "setparameters":
+                cf.setparameters(parameters.parameters(**q))
+                cur = dict(q)
+            elif how == "assign":
+                cf.parameters = parameters.parameters(**q)
+                cur = dict(q)
+            elif how == "update-dict":
+                cf.parameters.parameters.update({k: q[k] for k in ("z_center", "y_size", "z_size", "tilt_y", "tilt_z", "chi")})
+                cur.update({k: q[k] for k in ("z_center", "y_size", "z_size", "tilt_y", "tilt_z", "chi")})
+            else:
+                csc = csc + float(r.uniform(-3, 3))
+                cfc = cfc[::-1].copy()
+                cf.sc[:] = csc
+                cf.addcolumn(cfc.copy(), "fc")
+            if r.random() < 0.5:
+                cf.updateGeometry(fast=fast)
+            else:
+                cf.updateGV(fast=fast)          # slow route delegates to updateGeometry; fast only refreshes gx,gy,gz
+            tcur = (cur["t_x"], cur["t_y"], cur["t_z"])
+            refh = geom.forward(cur, csc, cfc, om, tcur)
+            for j, nm in enumerate(("gx", "gy", "gz")):
+                c.chk("columnfile history (fast=%s) after %s" % (fast, how), nm, cf.getcolumn(nm), refh["g"][:, j],
+                      1e-12 / cur["wavelength"])
+            run.count("parameter_change_history_steps")
+
     # ---- e. empty inputs: every route returns empty results of the right shape
     if idx % 4 == 0:
         e = np.zeros(0)
@@ -518,7 +557,8 @@ def check(run, replay=None):
     for i in range(20 if run.tier == "quick" else 600):
         pixel_lut_case(run, seed, i, mods)
     for cn, k in (("integer_input_cases", 50), ("updateGV_calls", 200), ("get_local_gv_calls", 50), ("reset_histories", 50),
-                  ("empty_input_cases", 10), ("xyz_layout_cases", 50), ("pixel_lut_cases", 10)):
+                  ("empty_input_cases", 10), ("xyz_layout_cases", 50), ("pixel_lut_cases", 10),
+                  ("parameter_change_history_steps", 300)):
         run.require_counter(cn, k)
     run.extra["classes_planned"] = len(set(plan))
     for nthr in (2, 4, 8):
